@@ -644,6 +644,78 @@ func rulesC02(c *Ctx) {
 		}
 	})
 
+	c.Rule("R-C02-15", "the batch bookkeeping forgets what it says it forgets: no loop in the code behind ioConn.Read/Write ranges over a collection that the guards in front of it say is empty (a `for id := range batch.unresolved { delete(index, id) }` placed behind `len(batch.unresolved) == 0` never runs: the ids of an answered batch stay in the index, a later call re-using one is never answered and a later batch re-using one tears the session down)", func() {
+		n := 0
+		seen := map[*Func]bool{}
+		for _, rootName := range []string{"Read", "Write"} {
+			for _, f0 := range c.pkgClosure(c.Fn(pM, "ioConn", rootName)) {
+				for _, f := range append([]*Func{f0}, f0.AllLits()...) {
+					if seen[f] {
+						continue
+					}
+					seen[f] = true
+					g := f.Graph()
+					inspectNoLit(f.Body, func(x ast.Node) {
+						rs, ok := x.(*ast.RangeStmt)
+						if !ok {
+							return
+						}
+						if _, isSel := ast.Unparen(rs.X).(*ast.SelectorExpr); !isSel {
+							if _, isID := ast.Unparen(rs.X).(*ast.Ident); !isID {
+								return
+							}
+						}
+						n++
+						target := exprStr(rs.X)
+						empty := hasAtom(g.GuardsAt(g.VertexOf(rs.X)), func(a Atom) bool {
+							y, zc, op, ok := binaryCmp(a.E)
+							if !ok {
+								return false
+							}
+							ce, isC := ast.Unparen(y).(*ast.CallExpr)
+							z, isZ := f.ConstInt(zc)
+							if !isC || !isZ || f.BuiltinName(ce) != "len" || len(ce.Args) != 1 || exprStr(ce.Args[0]) != target {
+								return false
+							}
+							switch {
+							case op == token.EQL && z == 0:
+								return a.Val
+							case op == token.NEQ && z == 0, op == token.GTR && z == 0, op == token.GEQ && z == 1:
+								return !a.Val
+							case op == token.LEQ && z == 0, op == token.LSS && z == 1:
+								return a.Val
+							}
+							return false
+						})
+						// something may have been put into it since the test
+						if empty {
+							if sel, isSel := ast.Unparen(rs.X).(*ast.SelectorExpr); isSel {
+								if fld, isF := f.ObjOf(sel.Sel).(*types.Var); isF && fld.IsField() {
+									rv := g.VertexOf(rs.X)
+									for _, w := range f.FieldWrites(f.Body, fld, false) {
+										if ce, isC := w.(*ast.ExprStmt); isC {
+											if call, isCall := ce.X.(*ast.CallExpr); isCall && (f.BuiltinName(call) == "delete" || f.BuiltinName(call) == "clear") {
+												continue
+											}
+										}
+										if call, isCall := w.(*ast.CallExpr); isCall && (f.BuiltinName(call) == "delete" || f.BuiltinName(call) == "clear") {
+											continue
+										}
+										if wv := g.VertexOf(w); g.ReachableFrom(wv)[rv] {
+											empty = false
+										}
+									}
+								}
+							}
+						}
+						c.Check(!empty, "batch-bookkeeping:no-loop-over-a-collection-known-empty:"+f.Name()+":"+target, f, rs, "the loop over %s is not behind a test that says %s is empty (guards: %s)", target, target, atomsString(g.GuardsAt(g.VertexOf(rs.X))))
+					})
+				}
+			}
+		}
+		c.Pin("range loops over variables/fields behind ioConn.Read/Write", n, 1)
+	})
+
 	c.Rule("R-C02-5", "batch bookkeeping tracks calls only (notifications are never answered), and a batch reply is flushed exactly when its last call is answered", func() {
 		isCall := c.FnObj(pJ, "Request", "IsCall")
 		isValid := c.FnObj(pJ, "ID", "IsValid")
